@@ -55,7 +55,9 @@ class Recorder:
         if parts[-1] == "__init__":
             parts.pop()
         if parts and parts[0] == "p-stubs":
-            return "stubs"
+            return "s"
+        if p.endswith(".pyi") and os.path.exists(p[:-1]):
+            return "s"                      # __init__.pyi next to __init__.py: the in-package stubs of p
         return model_id(self.cfg, ".".join(parts)) or "?" + ".".join(parts)
 
     def mid_from_name(self, name: str) -> str | None:
@@ -158,8 +160,7 @@ def install_taps(griffe):
             return orig_load(self, objspec, **kw)
         top = str(objspec).split(".", 1)[0]
         pkg = rec.mid_from_name(top) or "?" + top
-        if rec.depth > 0:
-            rec.emit("ResolveExternal", pkg=pkg)
+        rec.emit("Load" if pkg == "p" else "ResolveExternal", pkg=pkg, depth=rec.depth)
         rec.depth += 1
         try:
             res = orig_load(self, objspec, **kw)
@@ -412,8 +413,9 @@ def run_case(case: dict, workdir: str, ext_so: str | None) -> dict:
     os.makedirs(root)
     out: dict = {"id": case["id"]}
     try:
-        b = Builder(cfg, root, case.get("compiled_as", "pyc"), ext_so).build()
+        b = Builder(cfg, root, case.get("compiled_as", "pyc"), ext_so, bool(case.get("hostile"))).build()
         os.environ["C15_SENTINEL"] = b.sentinel
+        os.environ["C15_HOSTILE"] = "1" if case.get("hostile") else "0"
         os.environ["C15_CFAULTS"] = json.dumps(b.cfaults)
         rec = Recorder(cfg, root)
         rec.path0 = sys.path
@@ -449,6 +451,10 @@ def run_case(case: dict, workdir: str, ext_so: str | None) -> dict:
             outcome = "Other:" + type(exc).__name__
             out["tb"] = traceback.format_exc()[-1500:]
         finally:
+            if outcome == "Return":
+                rec.emit("Return", **_path_fields())
+            else:
+                rec.emit("Raise", exc=outcome, **_path_fields())
             REC = None
         with open(b.sentinel) as fh:
             ran = [ln.strip() for ln in fh if ln.strip()]
@@ -470,6 +476,7 @@ def run_case(case: dict, workdir: str, ext_so: str | None) -> dict:
             saved_depth=len(rec.path_stack),
             pycache=sorted(pyc_dirs),
             events=rec.events,
+            aux=rec.aux[:40],
             compiled_as=b.compiled_as,
             pid=os.getpid(),
         )
@@ -478,6 +485,9 @@ def run_case(case: dict, workdir: str, ext_so: str | None) -> dict:
         if sys.path is not rec.path0:
             sys.path = rec.path0
         sys.path[:] = rec.path0_copy
+        for name in list(sys.modules):
+            if name in uni or name.startswith("p."):
+                del sys.modules[name]
     except BaseException as exc:  # noqa: BLE001
         out["machinery_error"] = f"{type(exc).__name__}: {exc}\n{traceback.format_exc()[-1500:]}"
     finally:
